@@ -67,6 +67,11 @@ P = {
          "(a successful one); error/panic <=> none; the loop terminates within length+1 rounds; swap-remove removes exactly the failing call. Tie: deterministic batches (arrival order fixed through a verif accessor) "
          "are predicted exactly by the extracted model; free-running concurrent callers are judged by counters and recorded invocations in the database.",
          "Which callers share a batch under the real scheduler is not modelled (any grouping is a set of batches, each covered by the theorem; batches and solo re-runs are serial write transactions).", "DESIGN.md §8 C16"),
+ "C17": ("Lock.v models what Open/Close do with flock (exclusive for read-write, shared for read-only, finite timeout). Proved for every sequence of open/close attempts: a live read-write open is the "
+         "only live open; a read-write open succeeds only with no holder, a read-only one only with no read-write holder; close releases. Tie: every open/close result of sequences issued from this "
+         "process and from child processes is predicted by the extracted model. The read-only half is decided on observations: every write entry point refused, zero write/truncate/sync calls, SHA-256 "
+         "of the file unchanged after the session and after each CLI inspection command, every returned slice either faults on write or is a private copy (file hashed while the byte is changed).",
+         "flock semantics of the OS are assumed (trusted base); the no-byte-changes and memory-protection clauses are checked on generated programs, not proved (they are facts about mmap/PROT_READ): partial.", "DESIGN.md §8 C17"),
  "C18": ("Grow.v: mmapSize covers the request; if the pre-check of the last allocation passed and the map is not larger than that allocation needs, the file after grow (with or without grow-sync) is within "
          "max(MaxSize, previous length); the unrestricted statement is REFUTED by a kernel-checked witness (known finding D7). Tie: every ErrMaxSizeReached and every file length after commit predicted by the "
          "extracted model from the real allocation events; Spec.v for the refused transaction; decoder accounting.",
